@@ -22,8 +22,8 @@ LEVEL = 'exploration'
 FRESH_PROCESS_PER_JOB = True
 RULE = ('one case = (prime p, operation incl. parameters, coefficient array(s) with trailing zeros, configuration, mask script). '
         'thorough: GF(5): ALL pairs of arrays of length <= 3 (156^2) for every binary operation; GF(7): all 400^2 pairs for + - * == != '
-        '// % divmod < <= > >= gcd and the public-operand forms, gcdext/invert/powmod/if_else on all pairs of length <= 2 plus the '
-        'length-3 arrays over {0,1,3,6}; GF(509): arrays over {0,1,2,254,508} (length <= 2) and {0,1,508} (length 3); every unary '
+        '// % divmod < gcd; the other call forms (<= > >=, static mod, public operands) and gcdext/invert/powmod/if_else on all pairs '
+        'of length <= 2 plus the length-3 arrays over {0,1,3,6} (121^2); GF(509): arrays over {0,1,2,254,508} (length <= 2) and {0,1,508} (length 3); every unary '
         'operation x every parameter value on all arrays.  quick: GF(5) all pairs of length <= 2 (ring operations also with the length-3 '
         'arrays over {0,1,4}; gcdext/invert/powmod on arrays over {0,1,4}); GF(7), GF(509) arrays over {0,1,p-1}.  Masks: seeded for every case; all-zero / all-max for the pairs over {0,1,p-1} of '
         'length <= 2 (quick) / all pairs of length <= 2 (thorough, GF(5)).  Documented preconditions (divisor != 0, inverse exists, '
@@ -38,7 +38,9 @@ ASSUMPTIONS = [
     'documented precondition "p must be sufficiently large compared to the degree bound": secpols needs every intermediate length '
     '< p (e.g. _div encodes the degree + 1 <= len in GF(p)); over GF(5) the squarings inside powmod(a, n, b), |n| >= 2, of length-3 '
     'operands reach length 5 and are not evaluated (observed there: quotient 0); all other cases keep lengths < p',
-    'excluded event: blinding factor 0 in is_zero_public (forced non-zero by the seam)',
+    'excluded event: blinding factor 0 in is_zero_public (forced non-zero by the seam); GF(509) runs with sec_param 5 so that it is a '
+    '"medium" field (bits // k = 1): with k = 4 it would count as large, where _div draws its unit s without the non-zero loop and fails '
+    'an assertion with probability 1/p (observed once: powmod(0, -2, 1))',
     'multi-party runs use the default eager schedule; m=3, t=1 stands for all configurations',
     'excluded event (several parties): secpols converts GF(p) values to SecInt(l) with l = 1 + bits(p) (l = bits(p) + 2 in _lt); the value '
     'c - sum_S r_S handed to runtime._mod can be as low as -C(m,t)(p-1), below -2^l, and is then only reduced correctly if the statistical '
@@ -57,7 +59,8 @@ MANIFEST = dict(
     ref='DESIGN 5/C38', note='trusted: gfpx as oracle (C23), randomness seam, world model')
 
 PRIMES = (5, 7, 509)
-K_SP = 4
+K_SP = {5: 4, 7: 4, 509: 5}      # GF(509) with k = 5: 9 // 5 = 1, the medium-field paths (k = 4 would make it a 'large' field, whose
+                                  # protocols accept failure probability 1/p)
 K_MP = 20
 
 
@@ -77,7 +80,14 @@ def edge(p):
 
 
 def domains(p, tier):
-    """dict: 'all' (unary + cheap binary), 'mid' (division/comparison/gcd), 'heavy' (gcdext/invert/powmod/if_else), 'modes'."""
+    d = _domains(p, tier)
+    d.setdefault('mid2', d['mid'])
+    return d
+
+
+def _domains(p, tier):
+    """dict: 'all' (unary + cheap binary), 'mid' (// % divmod < gcd), 'mid2' (their other call forms), 'heavy' (gcdext/invert/
+    powmod/if_else), 'modes'."""
     full = list(range(p))
     e = edge(p)
     extra3 = [(1, 0, e[2]), (0, 0, 1), (e[2], 1, 0), (0, 0, 0)]
@@ -90,7 +100,8 @@ def domains(p, tier):
     if p == 7:
         if tier == 'thorough':
             a = arrays(full, 3)
-            return dict(all=a, mid=a, heavy=arrays(full, 2) + arrays([0, 1, 3, 6], 3, 3), modes=arrays(e, 2))
+            h = arrays(full, 2) + arrays([0, 1, 3, 6], 3, 3)
+            return dict(all=a, mid=a, mid2=h, heavy=h, modes=arrays(e, 2))
         return dict(all=arrays(e, 3), mid=arrays(e, 2) + extra3, heavy=arrays(e, 2), modes=arrays(e, 1))
     if tier == 'thorough':
         a = arrays([0, 1, 2, 254, 508], 2) + arrays(e, 3, 3)
@@ -199,12 +210,12 @@ def build_ops(env):
     op('ne', 2, 'all', lambda f, g: f != g, lambda a, b: int(a != b), 'elt')
     op('floordiv', 2, 'mid', lambda f, g: f // g, lambda a, b: a // _nz(b))
     op('mod', 2, 'mid', lambda f, g: f % g, lambda a, b: a % _nz(b))
-    op('mod:static', 2, 'mid', lambda f, g: secpoly.mod(f, g), lambda a, b: a % _nz(b))
+    op('mod:static', 2, 'mid2', lambda f, g: secpoly.mod(f, g), lambda a, b: a % _nz(b))
     op('divmod', 2, 'mid', lambda f, g: list(divmod(f, g)), lambda a, b: list(divmod(a, _nz(b))), 'polys')
     op('lt', 2, 'mid', lambda f, g: f < g, lambda a, b: int(a < b), 'elt')
-    op('le', 2, 'mid', lambda f, g: f <= g, lambda a, b: int(a <= b), 'elt')
-    op('gt', 2, 'mid', lambda f, g: f > g, lambda a, b: int(a > b), 'elt')
-    op('ge', 2, 'mid', lambda f, g: f >= g, lambda a, b: int(a >= b), 'elt')
+    op('le', 2, 'mid2', lambda f, g: f <= g, lambda a, b: int(a <= b), 'elt')
+    op('gt', 2, 'mid2', lambda f, g: f > g, lambda a, b: int(a > b), 'elt')
+    op('ge', 2, 'mid2', lambda f, g: f >= g, lambda a, b: int(a >= b), 'elt')
     op('gcd', 2, 'mid', lambda f, g: secpoly.gcd(f, g), lambda a, b: poly.gcd(a, b))
     op('gcdext', 2, 'heavy', lambda f, g: list(secpoly.gcdext(f, g)), lambda a, b: list(poly.gcdext(a, b)), 'polys')
 
@@ -252,16 +263,16 @@ def build_plain_ops(env):
         op(f'reverse:secret-fld:d={d}', 1, 'all', lambda ca, d=d: env.sec(ca).reverse(S(d)), rs_ref)
         op(f'reverse:secret-int:d={d}', 1, 'all', lambda ca, d=d: env.sec(ca).reverse(mpc.SecInt()(d)), rs_ref)
     pub = [('add', lambda x, y: x + y, 'all', False), ('sub', lambda x, y: x - y, 'all', False), ('mul', lambda x, y: x * y, 'all', False),
-           ('floordiv', lambda x, y: x // y, 'mid', True), ('mod', lambda x, y: x % y, 'mid', True),
-           ('eq', lambda x, y: x == y, 'all', False), ('ne', lambda x, y: x != y, 'all', False), ('lt', lambda x, y: x < y, 'mid', False), ('ge', lambda x, y: x >= y, 'mid', False)]
+           ('floordiv', lambda x, y: x // y, 'mid2', True), ('mod', lambda x, y: x % y, 'mid2', True),
+           ('eq', lambda x, y: x == y, 'all', False), ('ne', lambda x, y: x != y, 'all', False), ('lt', lambda x, y: x < y, 'mid2', False), ('ge', lambda x, y: x >= y, 'mid2', False)]
     for nm, o, cls, nzb in pub:
         kind = 'elt' if nm in ('eq', 'ne', 'lt', 'ge') else 'poly'
         rf = (lambda o, nzb: lambda ca, cb: _r(o(env.pl(ca), _nz(env.pl(cb)) if nzb else env.pl(cb))))(o, nzb)
         op(f'{nm}:secret,public', 2, cls, (lambda o: lambda ca, cb: o(env.sec(ca), env.pl(cb)))(o), rf, kind)
         if nm not in ('eq', 'ne'):      # gfpx polynomial == secure polynomial is decided by gfpx (False): not offered
             op(f'{nm}:public,secret', 2, cls, (lambda o: lambda ca, cb: o(env.pl(ca), env.sec(cb)))(o), rf, kind)
-    op('divmod:public,secret', 2, 'mid', lambda ca, cb: list(divmod(env.pl(ca), env.sec(cb))), lambda ca, cb: list(divmod(env.pl(ca), _nz(env.pl(cb)))), 'polys')
-    op('divmod:secret,public', 2, 'mid', lambda ca, cb: list(divmod(env.sec(ca), env.pl(cb))), lambda ca, cb: list(divmod(env.pl(ca), _nz(env.pl(cb)))), 'polys')
+    op('divmod:public,secret', 2, 'mid2', lambda ca, cb: list(divmod(env.pl(ca), env.sec(cb))), lambda ca, cb: list(divmod(env.pl(ca), _nz(env.pl(cb)))), 'polys')
+    op('divmod:secret,public', 2, 'mid2', lambda ca, cb: list(divmod(env.sec(ca), env.pl(cb))), lambda ca, cb: list(divmod(env.pl(ca), _nz(env.pl(cb)))), 'polys')
     return ops
 
 
@@ -373,7 +384,7 @@ def unit_list(p, tier):
     """Work units (op name, chunk index, chunks) with rough weights, for job splitting."""
     doms = domains(p, tier)
     units = []
-    cost = dict(all=0.3, mid=4.0, heavy=10.0)
+    cost = dict(all=0.3, mid=4.0, mid2=4.0, heavy=10.0)
     names = OP_NAMES[p]
     for name, (arity, cls) in names.items():
         n = len(doms[cls]) ** arity
@@ -409,14 +420,14 @@ _op_names()
 def run_sp(job):
     from mc import sp
     part = Part()
-    mpc, seam = sp.setup(sec_param=K_SP, no_prss=True)
+    mpc, seam = sp.setup(sec_param=K_SP[job['p']], no_prss=True)
     guard_seam(seam)
     p, tier, seed = job['p'], job['tier'], job['seed']
     env = Env(mpc, p)
     ops = all_ops(env)
     doms = domains(p, tier)
     modeset = set(doms['modes'])
-    cfg = f'sp/GF({p})/k{K_SP}'
+    cfg = f'sp/GF({p})/k{K_SP[p]}'
     lengths = {}
     for name, c, chunks in job['units']:
         plain, arity, cls, fn, ref, kind = ops[name]
@@ -429,7 +440,7 @@ def run_sp(job):
                 continue
             draws = run_case(part, env, seam, sp, name, spec, plain, inputs, 'seeded', None, seed, cfg, lengths)
             if draws and all(x in modeset for x in inputs):
-                for mode in ('zero', 'max') + (('seeded2',) if tier == 'thorough' else ()):
+                for mode in ('zero', 'max') + (('seeded2',) if tier == 'thorough' and p != 5 else ()):
                     run_case(part, env, seam, sp, name, spec, plain, inputs, mode, None, seed, cfg, lengths)
         part.note('operation_units', 1)
     check_lengths(part, lengths, cfg, p)
@@ -680,7 +691,7 @@ def replay(case):
         return part
     from mc import sp
     part = Part()
-    mpc, seam = sp.setup(sec_param=K_SP, no_prss=True)
+    mpc, seam = sp.setup(sec_param=K_SP[case['p']], no_prss=True)
     guard_seam(seam)
     env = Env(mpc, case['p'])
     ops = all_ops(env)
@@ -689,11 +700,11 @@ def replay(case):
     lengths = {}
     for inputs in [case['inputs']] + ([case['other']] if case.get('other') else []):
         run_case(part, env, seam, sp, case['name'], (arity, cls, fn, ref, kind), plain, tuple(tuple(c) for c in inputs), case['mode'], script,
-                 case['seed'], f"sp/GF({case['p']})/k{K_SP}", lengths)
+                 case['seed'], f"sp/GF({case['p']})/k{K_SP[case['p']]}", lengths)
     if case.get('other_name'):
         plain2, arity2, cls2, fn2, ref2, kind2 = ops[case['other_name']]
         run_case(part, env, seam, sp, case['other_name'], (arity2, cls2, fn2, ref2, kind2), plain2, tuple(tuple(c) for c in case['inputs']),
-                 'seeded', None, case['seed'], f"sp/GF({case['p']})/k{K_SP}", lengths)
+                 'seeded', None, case['seed'], f"sp/GF({case['p']})/k{K_SP[case['p']]}", lengths)
     check_lengths(part, lengths, f"sp/GF({case['p']})", case['p'])
     cross_lengths(part, part.notes.pop('length_table', {}))
     return part
